@@ -14,6 +14,7 @@ var verifHarnesses = map[string]func(){
 	"VerifC20ChannelID":   VerifC20ChannelID,
 	"VerifC20Monitor":     VerifC20Monitor,
 	"VerifC20ConnectRace": VerifC20ConnectRace,
+	"VerifC20Reconnect":   VerifC20Reconnect,
 }
 
 type recEmitter struct {
@@ -122,4 +123,58 @@ func VerifC20ConnectRace() {
 	vstub.Assert(script.Subscribes == 1, "C20 one pairwise subscription per peer")
 	cancel()
 	vstub.WaitIdle()
+}
+
+// VerifC20Reconnect: the lifetime of a pairwise subscription.  Connect is called
+// with a caller's context (a store's); that context ends (the store closes)
+// while the shared channel object lives on; Connect is called again (another
+// store, or the same peer joining again): payloads the remote peer sends
+// afterwards are still delivered exactly once, attributed to it.  Also: Close
+// closes every subscription and ends every monitor.
+func VerifC20Reconnect() {
+	self, other := peer.ID("self"), peer.ID("other")
+	em := &recEmitter{}
+	script := &vstub.ScriptedPubSub{LiveSubs: true, Always: []peer.ID{other}}
+	root, cancelRoot := context.WithCancel(context.Background())
+	c := &channels{selfID: self, emitter: em, logger: zap.NewNop(), subs: map[peer.ID]*channel{},
+		ipfs: &vstub.PubSubCoreAPI{PS: script}, ctx: root, cancel: cancelRoot}
+	ctx1, cancel1 := context.WithCancel(context.Background())
+	if err := c.Connect(ctx1, other); err != nil {
+		vstub.Fail("C20 Connect failed")
+		return
+	}
+	first := vstub.NdBytes("first", 1)
+	script.Push(&vstub.Msg{Sender: other, Body: first})
+	vstub.WaitIdle()
+	vstub.Assert(len(em.got) == 1, "C20 a payload of the remote peer is delivered exactly once")
+	// the first caller's context ends; possibly the remote sends meanwhile (nobody promised delivery then)
+	cancel1()
+	vstub.WaitIdle()
+	vstub.Cover("first-context-ended")
+	em.got = nil
+	ctx2, cancel2 := context.WithCancel(context.Background())
+	if err := c.Connect(ctx2, other); err != nil {
+		vstub.Fail("C20 second Connect failed")
+		return
+	}
+	n := 1 + vstub.NdChoice("later", 2)
+	var want [][]byte
+	for k := 0; k < n; k++ {
+		b := vstub.NdBytes("later-body", 1)
+		want = append(want, b)
+		script.Push(&vstub.Msg{Sender: other, Body: b})
+	}
+	vstub.WaitIdle()
+	vstub.Cover("reconnected")
+	vstub.Assert(len(em.got) == n, "C20 after reconnecting, every payload of the remote peer is delivered exactly once")
+	if len(em.got) == n {
+		for k := range want {
+			vstub.Assert(string(em.got[k].Payload) == string(want[k]), "C20 payloads in order, byte for byte")
+			vstub.Assert(em.got[k].Peer == other, "C20 payload attributed to the remote peer")
+		}
+	}
+	_ = c.Close()
+	cancel2()
+	vstub.WaitIdle()
+	vstub.Assert(vstub.LiveThreads("berty.tech/go-orbit-db/pubsub") == 0, "C20/C18 Close ends every monitor of the pairwise channel")
 }
